@@ -112,10 +112,17 @@ fn canon_bdd(d: &Dot, filter: &str, var_id: &dyn Fn(&str) -> Option<usize>) -> S
             *bad = true;
             return "?".into();
         }
-        let s = if id == "n_true" {
-            "T".to_string()
-        } else if id == "n_false" {
-            "F".to_string()
+        let s = if id == "n_true" || id == "n_false" {
+            // a leaf means what its LABEL says (that is what a reader of the graph sees); the id only tells that it is a leaf
+            match label.get(id).copied() {
+                Some("true") => "T".to_string(),
+                Some("false") => "F".to_string(),
+                None => if id == "n_true" { "T".to_string() } else { "F".to_string() },
+                Some(_) => {
+                    *bad = true;
+                    "?".into()
+                }
+            }
         } else {
             let lab = label.get(id).copied().unwrap_or("?");
             let v = match var_id(lab) {
@@ -246,12 +253,17 @@ fn canon_tree(d: &Dot, names: &HashMap<String, usize>) -> String {
     }
     fn build(id: &str, d: &Dot, label: &HashMap<&str, &str>, names: &HashMap<String, usize>, memo: &mut HashMap<String, String>, depth: usize, bad: &mut bool) -> String {
         if let Some(s) = memo.get(id) {
+            if s == "?cycle" {
+                // the node is among its own descendants: not a term
+                *bad = true;
+            }
             return s.clone();
         }
         if depth > 2000 {
             *bad = true;
             return "?".into();
         }
+        memo.insert(id.to_string(), "?cycle".into());
         let lab = label.get(id).copied().unwrap_or("?");
         let outs: Vec<&(String, String, String)> = d.edges.iter().filter(|e| e.0 == id).collect();
         let mut one = |which: &str, bad: &mut bool, memo: &mut HashMap<String, String>| -> String {
